@@ -19,6 +19,36 @@ Definition gen_setchannel (e : bool) : prog :=
   if e then (PTest 512 (PRet false) (PCall true 512 (PCall true 1024 (PRet true))))
   else (PTest 256 (PTest 2048 (PCall false 512 (PCall true 1024 (PRet true))) (PTest 512 (PCall false 512 (PCall true 1024 (PRet true))) (PRet false))) (PTest 512 (PCall false 512 (PCall true 1024 (PRet true))) (PRet false))).
 
+(* methods outside state.go with a VALUE receiver that write the state word of their receiver (the write is lost) *)
+Definition gen_value_receiver_writers : Z := 0.
+
+(* every statement list outside state.go that clears flags through <x>.state.Unset: (flags cleared, flags set) *)
+(* Listener.clientClear listener.go:194: clears 2048 sets 0 *)
+(* Listener.Replace listener.go:268: clears 16384 sets 16384 *)
+(* proxyClient.Close proxy.go:181: clears 1792 sets 4 *)
+(* Proxy.clientClear proxy.go:254: clears 2048 sets 0 *)
+(* proxyClient.next proxy.go:367: clears 2 sets 0 *)
+(* proxyClient.next proxy.go:374: clears 2 sets 0 *)
+(* proxyClient.next proxy.go:381: clears 2 sets 0 *)
+(* Proxy.Replace proxy.go:440: clears 16384 sets 16384 *)
+(* Session.listen session.go:205: clears 1792 sets 16 *)
+(* Session.close session.go:462: clears 1792 sets 8 *)
+(* Session.close session.go:457: clears 1792 sets 0 *)
+(* Session.session session.go:620: clears 256 sets 0 *)
+(* Session.MigrateProfile session.go:1121: clears 8192 sets 0 *)
+(* Session.MigrateProfile session.go:1130: clears 8192 sets 0 *)
+(* Session.MigrateProfile session.go:1144: clears 8192 sets 0 *)
+(* Session.MigrateProfile session.go:1150: clears 8192 sets 0 *)
+(* Session.MigrateProfile session.go:1156: clears 8192 sets 0 *)
+(* Session.MigrateProfile session.go:1165: clears 8192 sets 0 *)
+(* Session.MigrateProfile session.go:1171: clears 8192 sets 0 *)
+Definition gen_state_sites : list (Z * Z) := [(2048, 0); (16384, 16384); (1792, 4); (2048, 0); (2, 0); (2, 0); (2, 0); (16384, 16384); (1792, 16); (1792, 8); (1792, 0); (256, 0); (8192, 0); (8192, 0); (8192, 0); (8192, 0); (8192, 0); (8192, 0); (8192, 0)].
+
+(* the statement lists of Session.close among them *)
+(* Session.close session.go:462: clears 1792 sets 8 *)
+(* Session.close session.go:457: clears 1792 sets 0 *)
+Definition gen_session_close_sites : list (Z * Z) := [(1792, 8); (1792, 0)].
+
 (* constants of c2/state.go in declaration order *)
 Definition gen_stateCanRecv : Z := 1.
 Definition gen_stateReady : Z := 2.
